@@ -194,15 +194,15 @@ type c09RandIn struct {
 	FailAt int         `json:"fail_at,omitempty"`
 	Budget int         `json:"byte_budget,omitempty"` // fault mode: the source runs dry after this many octets (short read + error)
 	Group  int         `json:"group"`
+	// FailOnce: fault mode with FailAt: only that read fails (transient failure); MaxRead: the source hands out at most this
+	// many octets per Read (short reads without error, allowed by the io.Reader contract)
+	FailOnce bool `json:"fail_once,omitempty"`
+	MaxRead  int  `json:"max_read,omitempty"`
 }
 
 // inject runs f with the failing random source the input describes (failure at a Read call, or after a byte budget).
 func (in c09RandIn) inject(f func(en *probe.Entropy)) {
-	if in.Budget > 0 {
-		probe.WithEntropyBudget(in.Stream, in.Budget, f)
-	} else {
-		probe.WithEntropy(in.Stream, in.FailAt, f)
-	}
+	probe.WithEntropyOpts(probe.EntropyOpts{Stream: in.Stream, FailAt: in.FailAt, FailOnce: in.FailOnce, Budget: in.Budget, MaxRead: in.MaxRead}, f)
 }
 
 var c09Random = probe.Define("C09", "exponents", func(t *rapid.T) c09RandIn {
@@ -224,11 +224,22 @@ var c09Random = probe.Define("C09", "exponents", func(t *rapid.T) c09RandIn {
 		in.Stream = append(in.Stream, gen.Fill(t, "rest", 64)...)
 	default:
 		in.Mode = "fault"
-		in.Stream = gen.Fill(t, "stream", 32)
-		in.FailAt = rapid.IntRange(1, 4).Draw(t, "failat")
-		if rapid.Bool().Draw(t, "bytebudget") {
-			in.FailAt, in.Budget = 0, rapid.IntRange(1, 300).Draw(t, "budget")
+		// zero or more candidates that are too small (so that the failure hits a re-draw), then drawn octets
+		for k := rapid.IntRange(0, 2).Draw(t, "nsmall"); k > 0; k-- {
+			chunk := make([]byte, 256)
+			tail := rapid.SliceOfN(rapid.Byte(), 0, 16).Draw(t, "small")
+			copy(chunk[256-len(tail):], tail)
+			in.Stream = append(in.Stream, chunk...)
 		}
+		in.Stream = append(in.Stream, gen.Fill(t, "stream", 32)...)
+		in.FailAt = rapid.IntRange(1, 4).Draw(t, "failat")
+		in.FailOnce = rapid.Bool().Draw(t, "failonce")
+		if rapid.Bool().Draw(t, "bytebudget") {
+			in.FailAt, in.FailOnce, in.Budget = 0, false, rapid.IntRange(1, 800).Draw(t, "budget")
+		}
+	}
+	if rapid.IntRange(0, 3).Draw(t, "shortreads") == 3 {
+		in.MaxRead = rapid.SampledFrom([]int{1, 7, 16, 100, 255, 256}).Draw(t, "maxread")
 	}
 	return in
 }, func(in c09RandIn) probe.Outcome {
@@ -238,7 +249,7 @@ var c09Random = probe.Define("C09", "exponents", func(t *rapid.T) c09RandIn {
 		var v *big.Int
 		var err error
 		var ent *probe.Entropy
-		probe.WithEntropy(stream, failAt, func(e *probe.Entropy) {
+		probe.WithEntropyOpts(probe.EntropyOpts{Stream: stream, FailAt: failAt, MaxRead: in.MaxRead}, func(e *probe.Entropy) {
 			err = probe.Try(func() error { var x error; v, x = security.GenerateRandomNumber(); return x })
 			ent = e
 		})
@@ -397,6 +408,8 @@ func TestC09(t *testing.T) {
 				c09Random.Eval(c, c09RandIn{Group: g, Mode: "fault", Stream: model.Bytes{1, 2, 3}, FailAt: k})
 				// stream forcing two reads (first candidate too small), failure at the second read
 				c09Random.Eval(c, c09RandIn{Group: g, Mode: "fault", Stream: make(model.Bytes, 256), FailAt: k})
+				c09Random.Eval(c, c09RandIn{Group: g, Mode: "fault", Stream: make(model.Bytes, 256), FailAt: k, FailOnce: true})
+				c09Random.Eval(c, c09RandIn{Group: g, Mode: "fault", Stream: make(model.Bytes, 512), FailAt: k, FailOnce: true, MaxRead: 100})
 			}
 			for _, b := range []int{1, 2, 16, 128, 255} {
 				c09Random.Eval(c, c09RandIn{Group: g, Mode: "fault", Stream: model.Bytes{9, 9}, Budget: b})
